@@ -1,7 +1,7 @@
 \* repaired: after cancellation every goroutine ends and Listen() is closed
 CONSTANTS HA = 2 HB = 0 ForkAt = 0 Start = 0 MaxIter = 2 WithCancel = TRUE
   Peers = {"honest", "corrupt"}
-  Verify = TRUE Retry = TRUE CheckedStore = TRUE CtxAwareSends = TRUE
+  Verify = TRUE Retry = TRUE CheckedStore = TRUE CtxAwareSends = TRUE FieldsChecked = TRUE
   ClassOf <- MCIdentity EmptyA <- MCEmptyMix EmptyB <- MCNoEmpty
 SPECIFICATION LiveSpec
 VIEW view
